@@ -14,7 +14,7 @@ from its source in $VERIF_REPO.
 import os
 import sys
 
-from .sym import (SInt, SBool, SBuf, And, Or, Not, Implies, Iff, If, Eq, Abs, Min, Max,
+from .sym import (SInt, SBool, SBuf, SRegion, And, Or, Not, Implies, Iff, If, Eq, Abs, Min, Max,
                   Unsupported, PathEnd, buf_equal, to_cells, assemble_le, cells_equal)
 from .engine import Outcome
 
